@@ -98,6 +98,9 @@ def strategy(tier):
         # parameter continuation: the module's p / rho / alpha attribute is multiplied by this factor before the step
         # (as tests/test_aggregration.py does with KSFunction.rho); 1 = unchanged
         "pfac": st.sampled_from([1.0, 1.0, 1.0, 0.5, 2.0]),
+        # back-propagate (seed 1, sensitivity(), reset()) after this response, as every optimisation iteration does: the
+        # damped scaling must advance once per response(), not per call into the module
+        "sens": st.sampled_from([False, False, True]),
     })
 
     @st.composite
@@ -349,6 +352,15 @@ def check_case(case):
             bad(f"raises:response:{agg}:{type(e).__name__}", f"step {k} x={x.tolist()}: {e!r}"[:900])
             break
         y, sel = m_full.sig_out[0].state, m_full.select      # `select`: the active set the module used (attribute)
+        if case["steps"][k].get("sens"):
+            try:
+                m_full.sig_out[0].sensitivity = 1.0
+                m_full.sensitivity()
+                m_full.reset()
+                labels.append("sensitivity_between_responses")
+            except Exception as e:
+                bad(f"raises:sensitivity:{agg}:{type(e).__name__}", f"step {k} x={x.tolist()}: {e!r}"[:900])
+                break
         try:
             approx = m_full.aggregation_function(s_full.state[sel])
         except Exception as e:
